@@ -497,6 +497,14 @@ func (q *TransferQueue) collectBatches() {
 		verifEv("col.after", "", len(collected))
 		if err != nil && !errors.IsRetriableError(err) {
 			q.wait.Abort()
+			// Nothing will be batched any more, but keep receiving
+			// until Wait() closes the channel so that Add() cannot
+			// block forever on a full buffer.
+			for !closing {
+				if _, ok := <-q.incoming; !ok {
+					closing = true
+				}
+			}
 			break
 		}
 
